@@ -10,6 +10,7 @@ package resolver
 // (notexample.com / exam.ple.com against example.com).
 
 import (
+	"context"
 	"encoding/json"
 	"fmt"
 	"math/rand"
@@ -19,11 +20,33 @@ import (
 	"sort"
 	"strings"
 	"testing"
+	"time"
 
 	"github.com/miekg/dns"
 	"github.com/semihalev/sdns/config"
+	"github.com/semihalev/sdns/internal/authority"
 	"github.com/semihalev/sdns/internal/cache"
+	"github.com/semihalev/sdns/middleware"
 )
+
+// the Queryer NS-host address lookups go through in the history cases: answers from a scripted map
+type vC07HostQueryer struct {
+	world map[string][]dns.RR
+	asked []string
+}
+
+func (q *vC07HostQueryer) Query(ctx context.Context, req *dns.Msg) (*dns.Msg, error) {
+	name := strings.ToLower(req.Question[0].Name)
+	q.asked = append(q.asked, name)
+	ans, ok := q.world[name]
+	if !ok {
+		return nil, middleware.ErrNoResponse
+	}
+	m := new(dns.Msg)
+	m.SetReply(req)
+	m.Answer = ans
+	return m, nil
+}
 
 var vC07Local = []net.IP{net.IPv4(192, 0, 2, 77), net.ParseIP("2001:db8::77"), net.IPv4(10, 9, 8, 7).To4()}
 
@@ -243,6 +266,116 @@ func TestVerifC07Unit(t *testing.T) {
 			"nontrivial": len(extra) > 0, "go_fail": goFail,
 			"desc": map[string]any{"qname": qn.String(), "level": level, "ipv6": ipv6, "hosts": fmt.Sprint(hosts), "extra": vC07DescRRs(extra),
 				"servers": fmt.Sprint(srv), "found4": k4, "found6": k6},
+		})
+	}
+
+	// --- the NS-address cache across a history of referrals ------------------------------------
+	// each event is what processDelegation does on the uncached path: the real checkGlueRR, then the
+	// real lookupV4Nss (cache first, otherwise an address lookup through the Queryer)
+	for c := 0; c < n/12; c++ {
+		res := &Resolver{cfg: &config.Config{IPv6Access: false}, glueV4: cache.New(1024), glueV6: cache.New(1024), delegations: authority.NewCache()}
+		hq := &vC07HostQueryer{}
+		var qr middleware.Queryer = hq
+		res.queryer.Store(&qr)
+		qbase := vC07RandQName(r)
+		for len(qbase) < 2 {
+			qbase = vC07RandQName(r)
+		}
+		var evCoq, evDesc []string
+		probeSet := map[string]vC07Name{}
+		steps := 1 + r.Intn(4)
+		for e := 0; e < steps; e++ {
+			qname := qbase
+			if r.Intn(3) == 0 {
+				qname = append(vC07Name{vC07Labels[r.Intn(len(vC07Labels))]}, qbase...)
+			}
+			level := r.Intn(len(qname))
+			var hosts []vC07Name
+			hostSetV := make(hostSet)
+			for i, nh := 0, 1+r.Intn(3); i < nh; i++ {
+				h, _ := vC07Relative(r, qname)
+				h = append(vC07Name{[]string{"ns", "ns1", "ns2"}[r.Intn(3)]}, h...)
+				if r.Intn(3) == 0 && len(probeSet) > 0 { // a host seen in an earlier event again
+					for _, old := range probeSet {
+						h = old
+						break
+					}
+				}
+				key := strings.ToLower(h.String())
+				if _, dup := hostSetV[key]; dup {
+					continue
+				}
+				hostSetV[key] = struct{}{}
+				hosts = append(hosts, vC07Parse(key))
+				probeSet[key] = vC07Parse(key)
+			}
+			var extra []vC07RRSpec
+			for i, ne := 0, r.Intn(4); i < ne; i++ {
+				owner := hosts[r.Intn(len(hosts))]
+				if r.Intn(4) == 0 {
+					owner, _ = vC07Relative(r, qname)
+					probeSet[strings.ToLower(owner.String())] = vC07Parse(strings.ToLower(owner.String()))
+				}
+				if r.Intn(2) == 0 {
+					owner = vC07CaseMix(r, owner)
+				}
+				sp := vC07RRSpec{owner: owner, rrtype: dns.TypeA, class: dns.ClassINET, ttl: 60}
+				sp.ip, _ = vC07RandIP(r, false)
+				extra = append(extra, sp)
+			}
+			// what an address lookup for each host returns (missing: the lookup fails)
+			hq.world = map[string][]dns.RR{}
+			var ansCoq []string
+			for _, h := range hosts {
+				if r.Intn(3) == 0 {
+					continue
+				}
+				var recs []vC07RRSpec
+				for i, na := 0, r.Intn(3); i < na; i++ {
+					sp := vC07RRSpec{owner: h, rrtype: dns.TypeA, class: dns.ClassINET, ttl: 60}
+					if r.Intn(4) == 0 {
+						sp.rrtype = dns.TypeAAAA
+						sp.ip, _ = vC07RandIP(r, true)
+					} else {
+						sp.ip, _ = vC07RandIP(r, false)
+					}
+					if r.Intn(5) == 0 {
+						sp.owner = append(vC07Name{"alias"}, h...) // the tail of an alias chain
+					}
+					recs = append(recs, sp)
+				}
+				hq.world[strings.ToLower(h.String())] = vC07RRs(recs)
+				ansCoq = append(ansCoq, fmt.Sprintf("(%s, %s)", h.coq(), vC07CoqRRs(recs)))
+			}
+			resp := &dns.Msg{}
+			resp.Question = []dns.Question{{Name: qname.String(), Qtype: dns.TypeA, Qclass: dns.ClassINET}}
+			resp.Extra = vC07RRs(extra)
+			authservers, f4, _ := res.checkGlueRR(resp, hostSetV, level)
+			authservers.Zone = qname.String()
+			nsq := dns.Question{Name: qname.String(), Qtype: dns.TypeNS, Qclass: dns.ClassINET}
+			_ = res.lookupV4Nss(context.Background(), nsq, authservers, cache.Key(nsq, true), nil, f4, hostSetV, true, time.Time{})
+			evCoq = append(evCoq, fmt.Sprintf("GlueReferral %d %s %s %s [%s]", level, qname.coq(), vC07CoqNames(hosts), vC07CoqRRs(extra), strings.Join(ansCoq, ";")))
+			evDesc = append(evDesc, fmt.Sprintf("level=%d qname=%s hosts=%v glue=%v lookups=%d", level, qname, hosts, vC07DescRRs(extra), len(hq.world)))
+		}
+		var keys []string
+		for k := range probeSet {
+			keys = append(keys, k)
+		}
+		sort.Strings(keys)
+		var prCoq, prDesc []string
+		for _, k := range keys {
+			addrs, ok := res.getIPv4Cache(k)
+			if ok {
+				prCoq = append(prCoq, fmt.Sprintf("(%s, Some %s)", probeSet[k].coq(), vC07CoqAddrs(addrs)))
+				prDesc = append(prDesc, fmt.Sprintf("%s=%v", k, addrs))
+			} else {
+				prCoq = append(prCoq, fmt.Sprintf("(%s, None)", probeSet[k].coq()))
+			}
+		}
+		emit(map[string]any{
+			"k": fmt.Sprintf("gluehist-%d", steps), "coq": fmt.Sprintf("CaseGlueHist %s [%s] [%s]", localCoq, strings.Join(evCoq, ";"), strings.Join(prCoq, ";")),
+			"nontrivial": len(prDesc) > 0,
+			"desc":       map[string]any{"events": evDesc, "cache": prDesc},
 		})
 	}
 
